@@ -168,6 +168,8 @@ def f_cyc():
     add("two_scc", I("a", "b") + [("p", "or", ["a", "q"]), ("q", "buf", ["p"]), ("u", "and", ["b", "v", "q"]), ("v", "buf", ["u"]), ("o", "xor", ["q", "v"], True)])
     add("out_outside", I("a") + [("p", "or", ["a", "q"]), ("q", "and", ["p", "a"]), ("o", "not", ["a"], True), ("o2", "buf", ["q"], True)])
     add("xor_ring", I("a") + [("p", "xor", ["a", "q"]), ("q", "buf", ["p"], True)])
+    add("osc_elsewhere", I("a", "en") + [("osc", "nand", ["en", "osc"], True), ("p", "and", ["a", "en"], True), ("q", "not", ["a"], True)])
+    add("hold_elsewhere", I("a", "b", "set") + [("h", "or", ["set", "h"], True), ("k", "xor", ["k", "set"], True), ("p", "xor", ["a", "b"], True)])
     add("self_xor", I("a") + [("g", "xor", ["g", "a"], True)])
     add("self_and", I("a", "b") + [("g", "and", ["g", "a"]), ("o", "or", ["g", "b"], True)])
     add("self_xnor3", I("a", "b") + [("g", "xnor", ["g", "a", "b"], True), ("h", "xor", ["h", "g", "a", "b"], True)])
@@ -334,7 +336,7 @@ def seq_circuits():
                                     {"r0": ("d", "q")}, FF, "d", "q", {"clk": "clk"}), "d", "q"))
     S.append((("seq", "shift2"), mk("shift2", I("clk", "a") + [("q0", "buf", []), ("q1", "buf", []), ("d0", "buf", ["a"]), ("d1", "and", ["q0", "a"]), ("o", "or", ["q0", "q1"], True)],
                                     {"r0": ("d0", "q0"), "r1": ("d1", "q1")}, FF, "d", "q", {"clk": "clk"}), "d", "q"))
-    S.append((("seq", "qnames"), mk("qnames", I("clk", "req_q", "en_d") + [("q", "buf", []), ("d", "xor", ["req_q", "q", "en_d"]), ("ack_q", "and", ["q", "req_q"], True), ("st_d", "not", ["q"], True)],
+    S.append((("seq", "qnames"), mk("qnames", I("clk", "req_q", "en_d", "gate_clk") + [("q", "buf", []), ("d", "xor", ["req_q", "q", "en_d", "gate_clk"]), ("ack_q", "and", ["q", "req_q"], True), ("st_d", "not", ["q"], True), ("div_clk", "or", ["q", "gate_clk"], True)],
                                     {"r0": ("d", "q")}, FF, "d", "q", {"clk": "clk"}), "d", "q"))
     S.append((("seq", "io_input"), mk("io_input", [("clk", "input", []), ("en", "input", [], True), ("a", "input", [])] + [("q", "buf", []), ("d", "and", ["en", "a", "q"]), ("o", "or", ["q", "en"], True)],
                                       {"r0": ("d", "q")}, FF, "d", "q", {"clk": "clk"}), "d", "q"))
